@@ -585,3 +585,19 @@ mod short_term_cred_mech_tests {
         check_attributes(None, &attrs);
     }
 }
+
+#[cfg(feature = "verif-hooks")]
+impl ShortTermCredentialClient {
+    /// Credential state tag and violated transactions (verification hook, read-only)
+    pub fn verif_state(&self) -> (String, Vec<TransactionId>) {
+        (
+            format!(
+                "short-term user={:?} key={:?} integrity={:?}",
+                self.user_name.as_str(),
+                self.key.as_bytes(),
+                self.integrity
+            ),
+            self.validator.verif_violated(),
+        )
+    }
+}
